@@ -77,3 +77,13 @@ reg("C08", "exploration",
     assumptions=["worker address space limited to 12 GiB (a legitimately declared 4 GiB tile buffer is not an absurd allocation; "
                  "2^40 pre-allocated entries are)", "8 MiB stack", "'returns' is decided on logical stream operations "
                  "(64*(len+4096)+2e6 budget), wall-clock is only an inconclusive watchdog"])
+
+reg("C15", "fault_enumeration",
+    "cases = (scenario, k): scenarios = {PMTiles to_writer/from_reader/get_tile_by_id, util read_directories/write_directories, "
+    "Directory to_writer/from_reader, Header to_writer/from_reader} x {small, leaf-spilling} x 4 codecs x {sync, async}; for each the "
+    "fault-free run defines N stream operations and the run in which operation k and all later ones fail is executed for every "
+    "k < N (stride reported per scenario when N exceeds the tier's limit). Distinct by enumeration of (scenario,k); every case "
+    "injects a fault, so all are non-trivial. Oracle: no panic, and Ok => stream image / returned value equals the fault-free one.",
+    require={"any": {"faults_executed": 2000, "faults_reached": 2000, "scenarios": 100, "outcome.err": 1000}},
+    assumptions=["fail-stop fault model: operation k and every later one return an error without side effect",
+                 "each write call is atomic; short transfers are covered by C13, not here"])
